@@ -11,6 +11,14 @@ import sys, os, logging
 _done = False
 
 
+# /repo's working tree is what every registered check analyses.  VERIF_REPO (development only: background
+# sweeps over a snapshot, trying a seeded change in a scratch worktree) points the machinery at another
+# checkout; runs made that way never write evidence.
+REPO = os.path.realpath(os.environ.get("VERIF_REPO", "/repo")).rstrip("/")
+if REPO != "/repo":
+    sys.path.insert(0, REPO)
+
+
 def boot():
     global _done
     if _done:
@@ -42,7 +50,7 @@ def boot():
             l.setLevel(60)
     except Exception:
         pass
-    assert os.path.realpath(amoco.__file__).startswith("/repo/"), amoco.__file__
+    assert os.path.realpath(amoco.__file__).startswith(REPO + "/"), amoco.__file__
 
 
 boot()
